@@ -5,6 +5,9 @@ HERE = os.path.dirname(os.path.dirname(os.path.abspath(__file__)))
 ALL = ["C%02d" % i for i in range(1, 21)]
 
 CHECKS = {
+ "C19": dict(cat="exploration", tech="model-based history monitor: Klong-level results of .table/.insert/t?col/#t/.schema/.index/.rindex/add-column/db(sql) compared step by step with a list-of-rows model",
+   text="Generated histories (create from columns, single and batch inserts, column reads, counts, index on one or two columns with unique keys, re-insert of existing keys, index drop, added column, select/count through .db, .schema) over integer, real and string columns run against the real Table/Database; each observation is compared with a model in which an unindexed table keeps insertion order and an indexed table keeps the last row per key ordered by key, with buffering invisible. Held on the histories observed.",
+   note="index columns unique before indexing; values compared with Klong match; a one-row SQL result may be squeezed.", ref="DESIGN.md §4 C19"),
  "C18": dict(cat="exploration", tech="controlled-scheduler execution of the real FileCache (lock, executor, open/os replaced by scheduler-aware versions) + per-file Wing-Gong linearizability check against a sequential register + quiescent final-state/accounting check",
    text="Two client threads (thorough: up to three, two files, small limits) each performing one or two of get/update/unload run against the real FileCache under a scheduler that owns every lock acquisition, task submission/completion, future wait and file-system call; schedules are drawn uniformly, with few preemptions, and by depth-first enumeration with preemption bound 2 on the smallest mixes. Each complete history (unique written values) is searched exhaustively for a linearization; deadlock is decided logically; at quiescence disk, cache and accounting are compared. Held on the schedules observed; known load/write and unload races are listed as findings, so detection power on mixed get/update/unload cells is limited to other oracle kinds.",
    note="yield points are the only schedule-dependent places; interleavings inside CPython bytecode between them and beyond the preemption bound are not explored.", ref="DESIGN.md §4 C18"),
